@@ -454,6 +454,8 @@ def npints_variation(f, ops):
             continue
         if rec["sig"] in seen and r < 0.15 and not rec.get("burst"):
             rec["npints"] = True
+        if rec["sig"] in seen and rec.get("api") == "lganm.new" and 0.15 <= r < 0.6:
+            rec["attr_order"] = "vm"
         seen.add(rec["sig"])
 
 
@@ -551,7 +553,7 @@ def relayout(j):
 def literal(rec):
     """The same call with no reference to world objects (for the pristine evaluation)."""
     r = {k: v for k, v in rec.items() if k not in ("c", "sig", "on_shared", "relayout", "reordered", "posseed",
-                                                   "burst", "npints")}
+                                                   "burst", "npints", "attr_order")}
     if "m" in r:
         r["m"] = {k: v for k, v in dict(r["m"], id=None).items() if k != "via"}
     return r
@@ -576,8 +578,8 @@ def variant(rec):
 
 
 def same_call(a, b):
-    ka = {k: v for k, v in a.items() if k not in ("c", "posseed", "burst", "npints")}
-    kb = {k: v for k, v in b.items() if k not in ("c", "posseed", "burst", "npints")}
+    ka = {k: v for k, v in a.items() if k not in ("c", "posseed", "burst", "npints", "attr_order")}
+    kb = {k: v for k, v in b.items() if k not in ("c", "posseed", "burst", "npints", "attr_order")}
     if "m" in ka and "m" in kb:
         ka["m"] = {k: v for k, v in ka["m"].items() if k != "via"}
         kb["m"] = {k: v for k, v in kb["m"].items() if k != "via"}
@@ -880,7 +882,7 @@ REQUIRED_PROBES = ["pair.nontrivial", "pair.seed0", "pair.sep.reseed", "pair.sep
                                                      "nd:gen.dag_avg_deg", "pair.default_seed_argument_omitted",
                                                      "nd.separated_by_an_unseeded_library_call"]
 
-REQUIRED_PROBES = REQUIRED_PROBES + ["pair.under_different_error_states_of_the_caller", "call.integers_as_numpy_scalars", "thread.calls_outside_main_thread", "fault.died_in_a_numpy_call(np.*)", "seed.given_as_Generator", "seed.given_as_BitGenerator"]
+REQUIRED_PROBES = REQUIRED_PROBES + ["model.parameters_read_in_another_order", "pair.under_different_error_states_of_the_caller", "call.integers_as_numpy_scalars", "thread.calls_outside_main_thread", "fault.died_in_a_numpy_call(np.*)", "seed.given_as_Generator", "seed.given_as_BitGenerator"]
 
 
 def simplify(op):
